@@ -26,6 +26,9 @@ RULE = ("Each run: up to 3 scripted switch connections over 2 datapath ids; "
         "step the events raised on the nexus and on each Connection, the "
         "registry core.openflow.connections and the socket reached by "
         "sendToDPID are compared with a reference model of the lifecycle.  "
+        "A quarter of the runs put the controller on the epoll select hub "
+        "(simulated epoll object) with kernel-style reuse of descriptor "
+        "numbers for accepted sockets.  "
         "Non-trivial = at least one connection was announced and one was "
         "lost; distinct = distinct event-log digest.")
 ASSUMPTIONS = [
@@ -50,7 +53,7 @@ EXPECT_PROBES = ["announced", "lost_announced", "lost_half_open",
                  "probe_send_hit", "probe_send_miss",
                  "unrelated_bad_type_error_mid_handshake",
                  "glued_to_handshake_end", "nexus_up_listener_raised",
-                 "nexus_down_listener_halted"]
+                 "nexus_down_listener_halted", "hub_epoll"]
 
 DPIDS = [0x11, 0x2200000022]
 # the two datapath ids of a run are drawn from here (cfg["dpids"]); 0 and
@@ -73,6 +76,9 @@ def gen_plan(seed, tier):
          "up_listener_raises": r.chance(0.25),
          "down_listener_halts": r.pick([None, None, None, "halt", "true",
                                         "attr"])}
+  # the controller runs with --epoll-selecthub, and its process reuses
+  # descriptor numbers the way a kernel hands them out (lowest free)
+  cfg["epoll"] = Rng(mix(seed, "hub")).chance(0.25)
   # per-peer script, then a random interleaving
   scripts = []
   for p in range(npeers):
@@ -193,6 +199,9 @@ def run_plan(plan):
 
 def _drive(sim, plan, known, hit):
   cfg = plan["cfg"]
+  if cfg.get("epoll"):
+    sim.epoll_hub = True
+    sim.reuse_fds = True
   world = CTLWorld(sim)
   world.boot()
   if cfg.get("up_listener_raises"):
